@@ -10,7 +10,7 @@
 import os, json, vlib
 SDY = os.path.join(vlib.SPEC, 'sync'); SDS = os.path.join(vlib.SPEC, 'sched')
 SC_Q = ['mon_all', 'mon_all22', 'mon_one', 'mon_pred', 'mon_abort', 'bq', 'bq2', 'bq13', 'mtx', 'rwm', 'rwu', 'tgwait', 'exec1x3', 'suspF',
-        'enq', 'enq1', 'enq0', 'enqL1', 'enq1L1', 'enqL2x2', 'enqx2']
+        'enq', 'enq1', 'enq0', 'enq0', 'enq03', 'enqL1', 'enq1L1', 'enqL2x2', 'enqx2']
 HOLD = ['tgwaitH', 'tgwait3H', 'exec1x3H', 'exec1x4H', 'suspFH', 'suspF2H', 'enqH', 'enq1H', 'enqL1H', 'enqx2H']     # sleeping paths entered on purpose (long runs)
 TSO = ['mon_all', 'mon_all22', 'mon_one', 'mon_pred', 'mon_abort', 'bq', 'bq13', 'mtx', 'rwm', 'rwu', 'tgwait', 'exec1x3', 'suspF']
 
@@ -65,17 +65,26 @@ def run(res, tier, seed):
     r = vlib.model_check(res, SDY, 'Monitor', 'Monitor_1x1_nofence.cfg', must_hold=False, deadlock=False)
     if r.violation != 'NoLostWakeup':
         raise vlib.HarnessFailure('vacuity control failed: the Monitor model without the notifier-side fence should lose a wake-up under TSO')
-    vlib.model_check(res, SDS, 'MCp', 'PoolState_2x2.cfg', deadlock=False, timeout=1500)
+    # PoolState with the fact "the busy marker of a clear transaction is unique" as observed on the running code
+    pcfg = 'PoolState_2x2.cfg' if facts.get('busy_unique') else 'PoolState_2x2_shared.cfg'
+    r = vlib.model_check(res, SDS, 'MCp', pcfg, must_hold=False, deadlock=False, timeout=1500)
+    vlib.tlc_must_hold(r, pcfg)
+    if r.violation:
+        if facts.get('busy_unique'):
+            raise vlib.HarnessFailure('PoolState model violates %s with the default constants' % r.violation)
+        res.violation('poolstate:model:%s' % r.violation, 'arena::atomic_flag::try_clear_if marks its clear transaction with a value that is not unique per transaction (observed on the '
+                      'running code); with that fact the PoolState model loses an enqueued task: a stale clear of one worker succeeds against the marker of another (ABA), the '
+                      'arena is declared empty and its workers are recalled while the task sits in the FIFO stream', {'tlc_counterexample': vlib.extract_error_trace(r.out)[-40:], 'facts': facts})
     vlib.model_check(res, SDS, 'MCd', 'Demand_2.cfg', timeout=1500)
     if thorough:
         vlib.model_check(res, SDS, 'MCd', 'Demand_3.cfg', timeout=1500)
     # ---- real code
     n = 240 if not thorough else 4000; nh = 24 if not thorough else 400
     os.makedirs(os.path.join(vlib.BUILD, 'traces'), exist_ok=True)
-    jobs = [(sc, 0, n if not sc.startswith('enq') else n // 3) for sc in SC_Q] + [(sc, 1, n) for sc in TSO] + [(sc, 0, nh) for sc in HOLD] + [(sc, 1, nh // 2) for sc in HOLD[:6]]
+    jobs = [(sc, 0, n if not sc.startswith('enq') else (n if sc in ('enq0', 'enq03') else n // 3)) for sc in SC_Q] + [(sc, 1, n) for sc in TSO] + [(sc, 0, nh) for sc in HOLD] + [(sc, 1, nh // 2) for sc in HOLD[:6]]
     cmds = []; tfs = []
     for k, (sc, tso, cnt) in enumerate(jobs):
-        tf = os.path.join(vlib.BUILD, 'traces', 'c02-%s-%d-%d.ndjson' % (sc, tso, os.getpid())); tfs.append(tf)
+        tf = os.path.join(vlib.BUILD, 'traces', 'c02-%s-%d-%d-%d.ndjson' % (sc, tso, k, os.getpid())); tfs.append(tf)
         cmds.append([exe, tf, sc, str(cnt), str(seed * 5003 + k * 211), str(tso)])
     ps = vlib.run_parallel(cmds, timeout=3000)
     tot = {}; execs = []
